@@ -301,6 +301,10 @@ def gen_case(rng, tier, ctx, i):
         if rec is None:
             return None
     rec = json.loads(json.dumps(recipes.strip(rec)))
+    if rng.random() < 0.3:
+        for n in refmodel.recipe_nodes(rec):
+            if n["k"] in ("AtLeast", "AtMost") and rng.random() < 0.5:
+                n["iter"] = rng.choice(["gen", "map", "tuple", "iter"])       # the arguments arrive in a one-shot iterable
     return {"route": rng.choice(["ctor", "json", "both"]), "recipe": rec, "seed": rng.getrandbits(32)}
 
 
